@@ -241,12 +241,28 @@ class Exchange:
         self.reset = False
 
 
+_TLS_CLIENT = []
+
+
+def tls_client_context():
+    """Client side TLS context that accepts the self-signed certificate of
+    the listener under test."""
+    if not _TLS_CLIENT:
+        import ssl
+        c = ssl.SSLContext(ssl.PROTOCOL_TLS_CLIENT)
+        c.check_hostname = False
+        c.verify_mode = ssl.CERT_NONE
+        _TLS_CLIENT.append(c)
+    return _TLS_CLIENT[0]
+
+
 def send_raw(port, raw, timeout=10.0, half_close=True, chunks=None,
-             pause=0.0):
+             pause=0.0, tls=False):
     """Write `raw` to a new loopback connection, half-close the sending side
     (so an over-long Content-Length cannot block the handler), read until the
     server closes.  Never raises for socket errors: they are part of the
-    observation."""
+    observation.  tls: talk TLS (no half-close then: close_notify would end
+    the session for both directions)."""
     ex = Exchange()
     s = socket.socket(socket.AF_INET, socket.SOCK_STREAM)
     s.settimeout(timeout)
@@ -256,8 +272,15 @@ def send_raw(port, raw, timeout=10.0, half_close=True, chunks=None,
         except OSError as exc:
             ex.error = 'connect: %s' % type(exc).__name__
             return ex
-        ex.connected = True
         ex.local_port = s.getsockname()[1]
+        if tls:
+            half_close = False
+            try:
+                s = tls_client_context().wrap_socket(s)
+            except OSError as exc:
+                ex.error = 'tls-handshake: %s' % type(exc).__name__
+                return ex
+        ex.connected = True
         ex.t_send = CLOCK()
         try:
             if chunks and len(raw) > 2:
@@ -295,6 +318,197 @@ def send_raw(port, raw, timeout=10.0, half_close=True, chunks=None,
             s.close()
         except OSError:
             pass
+
+
+class StalledSender:
+    """A sender that stalls: it connects, writes only a prefix of its request
+    (possibly nothing) and keeps the socket open.  finish() lets it complete
+    the request (or just go away) and collects whatever came back.
+
+    kinds: 'partial-body'     headers with the full Content-Length, part of
+                              the body
+           'no-body'          headers with the full Content-Length, no body
+           'partial-headers'  request line and some header lines, no empty line
+           'no-bytes'         nothing at all
+           'half-closed'      part of the body, then the sending side is shut
+                              down (the reader sees end-of-file: benign)"""
+
+    KINDS = ('partial-body', 'no-body', 'partial-headers', 'no-bytes',
+             'half-closed')
+
+    def __init__(self, port, raw, kind, cut=0.5, tls=False):
+        self.kind, self.raw, self.tls = kind, raw, tls
+        self.connected = False
+        self.error = None
+        self.received = b''
+        self.closed_by_peer = False
+        head_end = raw.find(b'\r\n\r\n') + 4
+        if kind == 'no-bytes':
+            n = 0
+        elif kind == 'partial-headers':
+            n = max(1, int((head_end - 4) * cut))
+        elif kind == 'no-body':
+            n = head_end
+        else:
+            n = head_end + int((len(raw) - head_end) * cut)
+            n = min(n, len(raw) - 1)
+        self.sent = n
+        s = self.sock = socket.socket(socket.AF_INET, socket.SOCK_STREAM)
+        s.settimeout(5.0)
+        try:
+            s.connect((HOST, port))
+            self.connected = True
+            self.local_port = s.getsockname()[1]
+            if tls and kind != 'no-bytes':
+                s = self.sock = tls_client_context().wrap_socket(s)
+            if n:
+                s.sendall(raw[:n])
+            if kind == 'half-closed' and not tls:
+                s.shutdown(socket.SHUT_WR)
+        except OSError as exc:
+            self.error = '%s' % type(exc).__name__
+
+    def poll(self):
+        """Collect what has arrived so far without blocking."""
+        if self.sock is None:
+            return
+        try:
+            self.sock.settimeout(0.0)
+            while True:
+                d = self.sock.recv(65536)
+                if not d:
+                    self.closed_by_peer = True
+                    break
+                self.received += d
+        except (BlockingIOError, InterruptedError):
+            pass
+        except OSError as exc:
+            if 'WANT_READ' not in str(exc):
+                self.closed_by_peer = True
+        finally:
+            try:
+                self.sock.settimeout(5.0)
+            except OSError:
+                pass
+
+    def finish(self, complete=False, timeout=5.0):
+        """complete: send the rest of the request and wait for the answer;
+        otherwise just read what is there and close."""
+        s = self.sock
+        if s is None:
+            return self.received
+        try:
+            if complete and self.connected and not self.closed_by_peer and \
+                    self.kind not in ('no-bytes', 'half-closed'):
+                s.settimeout(timeout)
+                s.sendall(self.raw[self.sent:])
+                if not self.tls:
+                    s.shutdown(socket.SHUT_WR)
+                while True:
+                    d = s.recv(65536)
+                    if not d:
+                        break
+                    self.received += d
+            else:
+                self.poll()
+        except OSError as exc:
+            self.error = self.error or type(exc).__name__
+        finally:
+            self.close()
+        return self.received
+
+    def close(self):
+        if self.sock is not None:
+            try:
+                self.sock.close()
+            except OSError:
+                pass
+            self.sock = None
+
+
+def make_cert(dirpath):
+    """Self-signed certificate and private key (PEM files) for the loopback
+    listener.  Returns (certfile, keyfile, cert PEM bytes, key PEM bytes)."""
+    import datetime
+    from cryptography import x509
+    from cryptography.x509.oid import NameOID
+    from cryptography.hazmat.primitives import hashes, serialization
+    from cryptography.hazmat.primitives.asymmetric import ec
+    key = ec.generate_private_key(ec.SECP256R1())
+    name = x509.Name([x509.NameAttribute(NameOID.COMMON_NAME, 'localhost')])
+    now = datetime.datetime(2020, 1, 1)
+    cert = (x509.CertificateBuilder().subject_name(name).issuer_name(name)
+            .public_key(key.public_key())
+            .serial_number(x509.random_serial_number())
+            .not_valid_before(now)
+            .not_valid_after(now + datetime.timedelta(days=36500))
+            .sign(key, hashes.SHA256()))
+    cpem = cert.public_bytes(serialization.Encoding.PEM)
+    kpem = key.private_bytes(serialization.Encoding.PEM,
+                             serialization.PrivateFormat.TraditionalOpenSSL,
+                             serialization.NoEncryption())
+    os.makedirs(dirpath, exist_ok=True)
+    cf, kf = os.path.join(dirpath, 'cert.pem'), os.path.join(dirpath,
+                                                             'key.pem')
+    with open(cf, 'wb') as f:
+        f.write(cpem)
+    with open(kf, 'wb') as f:
+        f.write(kpem)
+    return cf, kf, cpem, kpem
+
+
+class HangLedger:
+    """Which hang mechanisms have been confirmed (or are being confirmed) by
+    some worker of this run.  Confirming a hang costs three watchdog periods;
+    once one worker has reported the mechanism, the other workers run the
+    cases of that class without the hang-provoking ingredient instead of
+    waiting for the same hang again.  Files in VERIF_WORKDIR; without that
+    directory (replay, single runs) nothing is ever known, so a replayed case
+    always runs in full."""
+
+    def __init__(self):
+        wd = os.environ.get('VERIF_WORKDIR')
+        self.dir = None
+        if wd and os.path.isdir(wd):
+            self.dir = os.path.join(wd, 'hang-ledger')
+            os.makedirs(self.dir, exist_ok=True)
+        self.mine = set()
+
+    def _path(self, cls, what):
+        return os.path.join(self.dir, '%s.%s' % (cls, what))
+
+    def known(self, cls):
+        """confirmed by anybody, or being confirmed by another worker"""
+        if self.dir is None:
+            return False
+        if os.path.exists(self._path(cls, 'confirmed')):
+            return True
+        return cls not in self.mine and \
+            os.path.exists(self._path(cls, 'claimed'))
+
+    def claim(self, cls):
+        if self.dir is None:
+            return
+        try:
+            os.close(os.open(self._path(cls, 'claimed'),
+                             os.O_CREAT | os.O_EXCL | os.O_WRONLY))
+            self.mine.add(cls)
+        except OSError:
+            pass
+
+    def confirm(self, cls):
+        if self.dir is None:
+            return
+        with open(self._path(cls, 'confirmed'), 'w', encoding='ascii'):
+            pass
+
+    def release(self, cls):
+        if self.dir is not None and cls in self.mine:
+            self.mine.discard(cls)
+            try:
+                os.unlink(self._path(cls, 'claimed'))
+            except OSError:
+                pass
 
 
 # ------------------------------------------------------ response grammar ---
@@ -503,9 +717,30 @@ def ind_id_of(ind):
         return None
 
 
+class VfCallbackAbort(BaseException):
+    """A BaseException that is not an Exception, raised by a callback."""
+
+
+class VfCallbackError(Exception):
+    """An Exception subclass of the harness, raised by a callback."""
+
+
+RAISE_KINDS = {
+    'RuntimeError': RuntimeError, 'VfCallbackError': VfCallbackError,
+    'StopIteration': StopIteration, 'AssertionError': AssertionError,
+    'OSError': OSError,
+    # not derived from Exception:
+    'SystemExit': SystemExit, 'KeyboardInterrupt': KeyboardInterrupt,
+    'GeneratorExit': GeneratorExit, 'VfCallbackAbort': VfCallbackAbort,
+}
+BASE_KINDS = ('SystemExit', 'KeyboardInterrupt', 'GeneratorExit',
+              'VfCallbackAbort')
+
+
 def make_callback(log, index, behaviour=None):
     """A listener callback that records enter/exit.  behaviour(index, id) ->
-    (sleep seconds, raise?)."""
+    (sleep seconds, raise?) where raise? is False, True (RuntimeError) or a
+    name from RAISE_KINDS."""
     def callback(indication, host):     # pylint: disable=unused-argument
         iid = ind_id_of(indication)
         log.add('enter', cb=index, id=iid, thread=threading.get_ident())
@@ -514,7 +749,10 @@ def make_callback(log, index, behaviour=None):
             time.sleep(dur)
         log.add('exit', cb=index, id=iid, raised=boom)
         if boom:
-            raise RuntimeError('vf callback %d fails for %s' % (index, iid))
+            cls = RAISE_KINDS.get(boom, RuntimeError)
+            if cls is SystemExit:
+                raise SystemExit(3)
+            raise cls('vf callback %d fails for %s' % (index, iid))
     callback.__name__ = 'vf_callback_%d' % index
     return callback
 
